@@ -690,7 +690,7 @@ Proof.
   - cbn [fst]. jpeel jr_set_running. jpeel jr_park. destruct inc; [jut jkeeps_held|apply jr_refl].
   - destruct k as [| |c].
     + apply jr_ret, Ht.
-    + destruct inc; [apply jr_ret, Ht|]. cbn [blocked fst]. jpeel jr_set_running. jeq.
+    + destruct inc; [apply jr_ret, Ht|]. destruct (ckif_spins _ _ _); [|apply jr_ret, Ht]. cbn [blocked fst]. jpeel jr_set_running. jeq.
     + pose proof (jr_scope_exit s c t inc Ht) as H. destruct (scope_exit s c t inc) as [s1 x]. cbn [fst] in H.
       destruct x; jpeel_ret; exact H.
   - jpeel_ret. apply jr_timer_cancel.
